@@ -150,6 +150,7 @@ def tasks(tier, seed):
         for entry in ("set", "has", "validate_steps", "apply_overrides", "update_processor"):
             out.append({"fn": "badkeys", "kwargs": {"det": det, "entry": entry}, "label": f"badkey/{det}/{entry}"})
     out.append({"fn": "disabled_model", "kwargs": {}, "label": "disabled_model_argument"})
+    out.append({"fn": "list_values", "kwargs": {}, "label": "set/list_values"})
     out.append({"fn": "decimal_ints", "kwargs": {}, "label": "eval_entry/decimal_ints"})
     out.append({"fn": "eval_entry_literals", "kwargs": {}, "label": "eval_entry/literals"})
     out.append({"fn": "eval_entry_crosshair", "kwargs": {"maxlen": 3 if tier == "quick" else 4, "timeout": 40 if tier == "quick" else 240}, "label": "eval_entry/crosshair", "kind": "direct"})
@@ -293,6 +294,23 @@ def badkeys(det, entry):
     vx.prove(f"C08/badkey/{entry}/rejected/{det}", not bad_accept, accepted=[(r[1], r[2]) for r in bad_accept][:6])
     vx.prove(f"C08/override/no_new_attribute/{entry}/{det}", not created, created=[(r[1], r[2]) for r in created][:6])
     vx.prove(f"C08/badkey/{entry}/state_unchanged/{det}", not changed)
+
+
+def list_values():
+    """Assigning a list keeps every element, falsy ones included, and converts textual elements literally."""
+    from pyxel.pipelines import DetectionPipeline, ModelFunction, Processor
+
+    key = "pipeline.photon_collection.m1.arguments.opt"
+    x = vx.real("x")
+    cases = {"falsy": ([0, False, 0.0, x], [0, False, 0.0, x]), "text": (["1", "2.5", "abc", "[1, 2]"], [1, 2.5, "abc", [1, 2]]), "empty_string": ([""], [""]),
+             "nested": ([[1, 2], [3]], [[1, 2], [3]])}
+    for name, (given, want) in cases.items():
+        pipe = DetectionPipeline(photon_collection=[ModelFunction(func="vxprobes.probe", name="m1", arguments={"opt": None})])
+        proc = Processor(detector=_make_det("ccd"), pipeline=pipe)
+        proc.set(key, given)
+        got = proc.get(key)
+        ok = isinstance(got, list) and len(got) == len(want) and all((g is w) or (type(g) is type(w) and g == w) or (vx.is_sym(w) and g is w) for g, w in zip(got, want))
+        vx.prove(f"C08/set/list_values/{name}", ok, got=repr(got)[:120])
 
 
 def disabled_model():
@@ -546,6 +564,18 @@ def replay(oid, kwargs, model, data):
             except Exception:  # noqa: BLE001
                 pass
         return bool(out), {"accepted_bad_keys": out}
+    if fn == "list_values":
+        from pyxel.pipelines import DetectionPipeline, ModelFunction, Processor
+
+        name = oid.rsplit("/", 1)[-1]
+        given, want = {"falsy": ([0, False, 0.0, 1.5], [0, False, 0.0, 1.5]), "text": (["1", "2.5", "abc", "[1, 2]"], [1, 2.5, "abc", [1, 2]]),
+                       "empty_string": ([""], [""]), "nested": ([[1, 2], [3]], [[1, 2], [3]])}[name]
+        pipe = DetectionPipeline(photon_collection=[ModelFunction(func="vxprobes.probe", name="m1", arguments={"opt": None})])
+        proc = Processor(detector=_make_det("ccd"), pipeline=pipe)
+        proc.set("pipeline.photon_collection.m1.arguments.opt", given)
+        got = proc.get("pipeline.photon_collection.m1.arguments.opt")
+        bad = not (isinstance(got, list) and len(got) == len(want) and all(type(g) is type(w) and g == w for g, w in zip(got, want)))
+        return bad, {"assigned": repr(given), "read_back": repr(got)}
     if fn == "disabled_model":
         from pyxel.exposure import Readout
         from pyxel.observation import Observation, ParameterValues
